@@ -5,13 +5,13 @@
 (*   dropped, dup : sets of column names that are missing / occur twice                       *)
 (*   dtype : column name |-> how the column is stored:                                        *)
 (*            "ok", benign re-encodings ("int_as_float", "bool_as_int01", "bool_as_float01",  *)
-(*            "float_as_int", "bool_as_intcol"), lossy ones ("int_frac", "bool_two", "bool_frac", "object")*)
+(*            "float_as_int", "bool_as_intcol"), lossy ones ("int_frac", "int_frac_small" [a fraction of 1e-4: no tolerance], "bool_two", "bool_frac", "object") *)
 (* Valid(t) is what the statement of C20 calls well-formed; every fault action of             *)
 (* MC_Validate must lead to ~Valid, every benign action must preserve Valid.                  *)
 EXTENDS Naturals, Integers, Sequences, FiniteSets
 PtrCols == {"sp", "pa", "e1", "e2"}
 Required == {"alter", "bruttolohn_m", "kind", "hh_id"}        \* representatives of required input columns
-Lossy == {"int_frac", "bool_two", "bool_frac", "object"}
+Lossy == {"int_frac", "int_frac_small", "bool_two", "bool_frac", "object"}
 Benign == {"int_as_float", "bool_as_int01", "bool_as_float01", "float_as_int"}
 Pids(t) == {t.rows[i].pid : i \in 1..Len(t.rows)}
 Valid(t) ==
